@@ -97,10 +97,14 @@ def compute_helper_escapes(repo: Repo) -> None:
                 HELPER_ESCAPES[fn.name] = esc
 
 
+CALL_ARGS: Dict[str, Dict[str, List[ast.AST]]] = {}  # callee fq -> parameter -> argument expressions at its call sites
+
+
 def compute_tainted_params(repo: Repo, mods: List[str]) -> None:
     """Inter-procedural step: a parameter is tainted when some call site in the emit modules passes spec text for it.
     Callees are resolved by method/function name inside the emit modules (over-approximation)."""
     TAINTED_PARAMS.clear()
+    CALL_ARGS.clear()
     by_name: Dict[str, List[Function]] = {}
     fns: List[Function] = []
     for mn in mods:
@@ -125,6 +129,9 @@ def compute_tainted_params(repo: Repo, mods: List[str]) -> None:
                 for tgt in targets:
                     params = [p for p in tgt.params if p not in ("self", "cls")]
                     pairs = list(zip(params, c.args)) + [(k.arg, k.value) for k in c.keywords if k.arg in params]
+                    if _round == 0:
+                        for pname, arg in pairs:
+                            CALL_ARGS.setdefault(tgt.fq, {}).setdefault(pname, []).append(arg)
                     for pname, arg in pairs:
                         if pname in ("context", "writer", "self"):
                             continue
@@ -528,6 +535,11 @@ def run(repo: Repo, rep: Report, tier: str) -> None:
                         unproven = sorted({txt for k, txt in orig if k in ("param", "unknown", "component") and not SAFE_NAME_RE.search(txt.strip("`").split(" ")[-1].strip("`"))}
                                           | ({norm(h)} if isinstance(h, ast.Name) and not orig else set()))
                         leaf = norm(h)
+                        # a parameter that only ever receives plain literals (no quote, backslash or line break) at its call sites
+                        if isinstance(h, ast.Name) and h.id in fn.params:
+                            args_ = CALL_ARGS.get(fn.fq, {}).get(h.id, [])
+                            if args_ and all(isinstance(a, ast.Constant) and isinstance(a.value, str) and not any(ch in a.value for ch in '"\'\\\n\r') for a in args_):
+                                unproven = []
                         if unproven and not SAFE_NAME_RE.search(leaf.split(".")[-1]):
                             tainted = [f"{u} (not known to be identifier-like)" for u in unproven]
                     if not tainted:
